@@ -8,10 +8,10 @@ from vlib import core
 
 BASE = ["PrimeModulus", "MontConstants", "ResidueConstants", "GeneratorOnCurve", "Nonsingular", "OrderPrime",
         "OrderAnnihilatesGenerator", "HasseAndCofactor", "CofactorClears", "CurveFlags", "SecurityLevel",
-        "GeneratorTable"]
-ENDOM = ["BetaCubeRoot", "LambdaRoot", "PsiIsLambda", "GlvBasis", "GlvShort"]
+        "GeneratorTable", "MapConstants"]
+ENDOM = ["BetaCubeRoot", "LambdaRoot", "PsiIsLambda", "GlvBasis", "GlvShort", "GlvRounding"]
 PAIR = ["FamilyPolynomials", "CurveOrderFromTrace", "EmbeddingDegree", "TowerIsField", "TwistCoefficients",
-        "TwistGenerator", "TwistOrder", "TwistCofactor", "FrobeniusOnG2"]
+        "TwistGenerator", "TwistOrder", "TwistCofactor", "FrobeniusOnG2", "TwistCofactorClears"]
 
 
 def dump(cfg, wd):
